@@ -19,6 +19,8 @@ func init() {
 		"tlb.parsetag":  exParseTag,
 		"tlb.fieldtag":  exFieldTag,
 		"tlb.dec":       exTlbDec,
+		"tlb.canon":     exTlbCanon,
+		"tlb.canoninfo": exTlbCanonInfo,
 		"go.rt":         goRoundTrip,
 		"go.redec":      goReDecode,
 		"go.stable":     goStable,
